@@ -27,6 +27,15 @@ def run(ck):
         wild = 10 if i % 8 == 7 else rng.choice([1, 2, 3])      # every 8th triple: malformed stream
         r = rng.fork()
         triples.append((g.gen_expr(r, 2, 3, wild), g.gen_expr(r, 2, 3, wild), g.gen_expr(r, 2, 3, wild), wild))
+    # priority chains on one field (three operands with every kind of priority annotation / missing value)
+    nchain = 160 if ck.tier == "quick" else 0
+    for i in range(nchain):
+        a, b, c = g.gen_chain_triple(rng.fork())
+        triples.append((a, b, c, "chain"))
+    if ck.tier == "thorough":
+        for (a, b, c) in g.all_chain_triples():
+            triples.append((a, b, c, "chain"))
+        ck.coverage["exhaustive_single_field_chains"] = len(g.all_chain_triples())
     EMPTY = ("r", [])
     exprs, index = [], []
     for (a, b, c, wild) in triples:
@@ -39,8 +48,8 @@ def run(ck):
     for t, (a, b, c, wild) in enumerate(triples):
         i = index[t]
         I, M = impl[i:i + 8], mod[i:i + 8]
-        ck.case(key=g.sexp(("a", [a, b, c])), nontrivial=(g.size(a) + g.size(b) + g.size(c) >= 8))
-        ck.hist("stream", "malformed" if wild == 10 else "mostly-valid")
+        ck.case(key=g.sexp(("a", [a, b, c])), nontrivial=(g.size(a) + g.size(b) + g.size(c) >= 8 or wild == "chain"))
+        ck.hist("stream", "malformed" if wild == 10 else ("priority-chain" if wild == "chain" else "mostly-valid"))
         ck.hist("outcome a&b", m.outcome_class(I[0]))
         ck.hist("size", min(g.size(a) + g.size(b) + g.size(c), 60) // 10 * 10)
         if t < 3:
@@ -74,7 +83,7 @@ def run(ck):
                                   "program %s\nimpl  %s\nmodel %s" % (srcs[nm], x, y))
     ck.coverage["correspondence_programs"] = len(exprs)
     ck.coverage["correspondence_disagreements"] = ndis
-    ck.coverage["rule"] = "triples (a,b,c) of record expressions (literals with priorities default/none/numeric/force, optional, not_exported, contracts Number/String/Bool/Pos/Even/NonEmpty, nested records, piecewise duplicates, variants, arrays, inner merges); 7 of 8 triples from the mostly-valid stream, 1 of 8 fully random; 8 programs per triple; non-trivial = total size >= 8"
+    ck.coverage["rule"] = "triples (a,b,c) of record expressions (literals with priorities default/none/numeric/force, optional, not_exported, contracts Number/String/Bool/Pos/Even/NonEmpty, nested records, piecewise duplicates, variants, arrays, inner merges); 7 of 8 triples from the mostly-valid stream, 1 of 8 fully random; plus priority chains: three operands defining the same field with every priority form, with/without value, optional, not_exported (exhaustive 21^3 in the thorough tier); 8 programs per triple; non-trivial = total size >= 8"
     ck.coverage["partial"] = "recursive sibling references are not in the algebra (laws checked on the interpreter only, see C07)"
     ck.trusted += ["extraction: ExtrOcamlBasic only", "harness bin nkeval (canonical outcome printer)", "generator checks/mergegen.py"]
     ck.assumptions += ["validating contracts are predicates on the exported value"]
